@@ -251,12 +251,19 @@ Definition attr_equal (a b : attr) : bool :=
 Definition attr_slice_equal (a b : list attr) : bool :=
   forallb (fun x => existsb (fun y => (a_type y =? a_type x) && attr_equal y x) b) a.
 
+(* attrEqual after the fix: commit (nil and empty lists hold the same attributes) *)
 Definition attrs_equal (a : list attr) (anil : bool) (b : list attr) (bnil : bool) : bool :=
+  (lenN a =? lenN b) && attr_slice_equal a b && attr_slice_equal b a.
+
+(* attrEqual on the pinned tree: nil is only equal to nil *)
+Definition attrs_equal_old (a : list attr) (anil : bool) (b : list attr) (bnil : bool) : bool :=
   if anil && bnil then true
   else if anil || bnil then false
   else (lenN a =? lenN b) && attr_slice_equal a b && attr_slice_equal b a.
 
-Definition msg_equal (m n : msg) : bool :=
+Definition msg_equal_gen (ae : list attr -> bool -> list attr -> bool -> bool) (m n : msg) : bool :=
   (m_meth m =? m_meth n) && (m_class m =? m_class n) &&
   list_eqb N.eqb (m_tid m) (m_tid n) && (m_length m =? m_length n) &&
-  attrs_equal (m_attrs m) (m_attrs_nil m) (m_attrs n) (m_attrs_nil n).
+  ae (m_attrs m) (m_attrs_nil m) (m_attrs n) (m_attrs_nil n).
+Definition msg_equal : msg -> msg -> bool := msg_equal_gen attrs_equal.
+Definition msg_equal_old : msg -> msg -> bool := msg_equal_gen attrs_equal_old.
